@@ -1,4 +1,8 @@
 """C01 — exactly the matching, in-scope, unsuppressed rules fire once per event."""
+import importlib.util
+import os
+import subprocess
+
 import checklib
 
 
@@ -48,6 +52,40 @@ def decode(p):
                 "values": "Z/A nil, H<class>i<n> hashable, D<class>i<n> list/map, X<n> regex (tables in go/cmd/harness/c01.go)"}
     except Exception:
         return p
+
+
+def _conc():
+    sp = importlib.util.spec_from_file_location("props_conc", os.path.join(checklib.VERIF, "props", "_conc.py"))
+    m = importlib.util.module_from_spec(sp)
+    sp.loader.exec_module(m)
+    return m
+
+
+def extract(ctx):
+    """regenerate lean/Ecal/Gen/C01Facts.lean (how IsTriggering keys its cache) from the tree under test"""
+    _conc().extract(ctx, "C01", "C01Facts.lean")
+
+
+def stress(ctx):
+    """the trigger cache written while read: plain build in the quick tier, -race build in the thorough tier"""
+    race = ctx.tier == "thorough"
+    binp = checklib.go_build(ctx, out="harness-race", race=True) if race else ctx.harness
+    args = ["16", "5000"] if race else ["16", "20000"]
+    try:
+        p = subprocess.run([binp, "C01", "-tool", "stress"] + args, cwd=ctx.work, env=dict(checklib.GOENV, VERIF_REPO=checklib.REPO),
+                           stdout=subprocess.PIPE, stderr=subprocess.STDOUT, text=True, errors="replace", timeout=600)
+        rc, out = p.returncode, p.stdout
+    except subprocess.TimeoutExpired:
+        rc, out = -9, "stress run exceeded 600 s"
+    ctx.coverage["stress"] = {"race_build": race, "goroutines_x_kinds": "x".join(args), "rc": rc,
+                              "summary": [l for l in out.splitlines() if l.startswith("STRESS")][-1:]}
+    if rc != 0 or "DATA RACE" in out or "fatal error" in out:
+        rp = checklib.write_replay(ctx, "stress", {"command": "harness C01 -tool stress " + " ".join(args), "race_build": race},
+                                   "STRESS-OK (no data race, no skipped event, right pre-check answers)", out[-1500:],
+                                   "go build" + (" -race" if race else "") + " -tags verif ./cmd/harness && harness C01 -tool stress " + " ".join(args))
+        checklib.violation(ctx, rp, "trigger cache under concurrent AddEvent / IsTriggering: " + " ".join(out.split())[-200:])
+        return 1
+    return 0
 
 
 STRATA = ["kind", "state", "scope", "suppression", "dedupe", "spill", "cachehit", "ruleafter", "failstop", "fires", "child"]
@@ -115,6 +153,7 @@ SPEC = dict(
     ],
     decode=decode,
     post=post,
+    extract=extract,
 )
 
 META = dict(
@@ -140,4 +179,30 @@ META = dict(
 
 
 def run(ctx):
-    return checklib.standard(ctx, SPEC)
+    # a case may admit several outcomes that keep the property (spec=, spec2=, …): the framework knows one
+    # `spec` per case, so the alternative the real code produced (if any) is put there
+    go = {}
+    orig_cases, orig_driver = checklib.run_cases, checklib.run_driver
+
+    def run_cases(*a, **k):
+        res = orig_cases(*a, **k)
+        go.update(res[1])
+        return res
+
+    def run_driver(*a, **k):
+        out = orig_driver(*a, **k)
+        for i, (_, attrs) in out.items():
+            alts = [v for key, v in attrs.items() if key.startswith("spec")]
+            if len(alts) > 1 and go.get(i) in alts:
+                attrs["spec"] = go[i]
+        return out
+
+    checklib.run_cases, checklib.run_driver = run_cases, run_driver
+    try:
+        rc = checklib.standard(ctx, SPEC)
+    finally:
+        checklib.run_cases, checklib.run_driver = orig_cases, orig_driver
+    if stress(ctx):
+        rc = 1
+    checklib.write_evidence(ctx)
+    return rc
